@@ -346,7 +346,16 @@ def _interval_to_vevent(item: Interval | RecurringPattern[Any]) -> Event:
                 seconds=rp.start_seconds
             )
 
-        event.add("dtstart", dtstart)
+        # An all-day pattern is written with a DATE start (read back as midnight
+        # UTC), which can only express whole days starting at midnight UTC
+        is_all_day = (
+            bool(meta.get("is_all_day"))
+            and str(zone) == "UTC"
+            and rp.start_seconds == 0
+            and rp.duration_seconds % 86400 == 0
+        )
+
+        event.add("dtstart", dtstart.date() if is_all_day else dtstart)
         event.add("duration", timedelta(seconds=rp.duration_seconds))
 
         # RRULE
@@ -357,7 +366,7 @@ def _interval_to_vevent(item: Interval | RecurringPattern[Any]) -> Event:
         if rp.exdates:
             for mts in rp.exdates:
                 mdt = datetime.fromtimestamp(mts, tz=rp.zone or timezone.utc)
-                event.add("exdate", mdt)
+                event.add("exdate", mdt.date() if is_all_day else mdt)
 
     else:
         # Static Interval (or ICalEvent)
